@@ -9,6 +9,7 @@ From SF Require Import Unsized.Proofs.EncodeParse Unsized.Proofs.Mem Unsized.Pro
   Unsized.Proofs.Table Unsized.Proofs.Path Unsized.Proofs.Context Unsized.Proofs.Context2 Unsized.Proofs.Focus Unsized.Proofs.Pos
   Unsized.Proofs.FocusOps Unsized.Proofs.NotifyInside Unsized.Proofs.Resize Unsized.Proofs.GenOps Unsized.Proofs.GenOps2.
 From SF Require Import Unsized.Proofs.NotifyInside2.
+From SF Require Import Unsized.Proofs.EnumFacts.
 
 Arguments Z.add : simpl never.
 Arguments Z.sub : simpl never.
@@ -205,7 +206,16 @@ Proof.
       rewrite (Ht v pre (encs ts vs0 ++ post) q Hp1 Hv HLq). cbn [obind].
       specialize (IHts vs0 ps (pre ++ encode t v) Hp2 Hvs).
       rewrite zlen_app, <- app_assoc in IHts. rewrite (IHts HLr). cbn [obind]. rewrite zlen_app. reflexivity.
-  - cbn in Hpl. discriminate.
+  - destruct xv as [| | | |d pv]; try (cbn in Hwf; discriminate).
+    destruct node as [| | | | |st d' q]; try (cbn [Lay] in HL; contradiction).
+    apply Lay_enum in HL. destruct HL as (-> & -> & vt' & Hf' & HLq).
+    destruct (wf_enum_inv _ _ _ _ Hwf) as (Hd & vt & Hf & Hp). rewrite Hf in Hf'. injection Hf' as <-.
+    pose proof (plain_enum_find _ _ _ _ Hpl Hf) as Hplv.
+    enum_ih IH Hf IHv.
+    rewrite data_len_enum, Hf, (encode_enum_some _ _ _ _ _ Hf), <- app_assoc.
+    specialize (IHv pv (pre ++ le_bytes rw d) post q Hplv Hp).
+    rewrite zlen_app, zlen_le_bytes, <- app_assoc in IHv. rewrite (IHv HLq). cbn [obind].
+    rewrite zlen_app, zlen_le_bytes. reflexivity.
 Qed.
 
 Lemma data_len_Lay : forall X xv pre post node, plain X = true -> wf X xv = true -> Lay X xv (zlen pre) node ->
@@ -219,8 +229,7 @@ Proof. exact data_len_Lay_all. Qed.
 Fixpoint headed (t : ty) : bool :=
   match t with
   | TStruct ts => match ts with [] => false | f :: _ => headed f end
-  | TEnum _ _ => false
-  | _ => true
+  | _ => true      (* an enum's start pointer is the address of its discriminant *)
   end.
 
 Lemma start_of_Lay : forall X xv a node, headed X = true -> Lay X xv a node -> start_of node = a.
@@ -236,7 +245,9 @@ Proof.
     destruct vs0 as [|v vs0]; [contradiction|]. destruct ps as [|q ps]; [contradiction|].
     cbn [Lay_fields] in HL. destruct HL as [HLq _]. cbn [headed] in Hh. cbn [start_of].
     apply Forall_cons_iff in IH as [Hf _]. exact (Hf v a q Hh HLq).
-  - discriminate.
+  - destruct xv as [| | | |d pv]; try (destruct node; cbn [Lay] in HL; contradiction).
+    destruct node as [| | | | |st d' q]; try (cbn [Lay] in HL; contradiction).
+    apply Lay_enum in HL. destruct HL as (-> & _). reflexivity.
 Qed.
 
 (* the counterexample that makes `headed` necessary: a struct whose first field is an empty struct *)
@@ -384,6 +395,33 @@ Proof.
   intros Hres Hhd HwfX' Hpos R Hnref Hroom. rewrite <- (encode_size X xv' HwfX') in *.
   exact (set_data_general ovf pi t v X xv xv' s top Hres Hhd HwfX' Hpos R Hnref Hroom).
 Qed.
+
+(* sanity, on a concrete state: the value at the end of the path is an enum (headed), and it is replaced by a value of
+   a DIFFERENT variant of a different size (3 payload bytes shrink to none, then grow to 4): the machine's memory is the
+   encoding of the plugged value and the pointer tree is its canonical layout *)
+Example set_data_enum_switch :
+  let X := TEnum 1 [(0, TStruct []); (3, TList (FAny 1) 1); (7, TStruct [TFixed (FAny 2); TList (FAny 1) 1])] in
+  let t := TStruct [TFixed (FAny 1); X; TList (FAny 1) 1] in
+  let v := VStruct [VBytes [9]; VEnum 3 (VList [[5]; [6]]); VList [[7]]] in
+  let x1 := VEnum 0 (VStruct []) in
+  let x2 := VEnum 7 (VStruct [VBytes [1; 2]; VList [[8]]]) in
+  let s := mkMach (encode t v ++ [0; 0; 0; 0]) (zlen (encode t v)) 0 0 in
+  headed X = true /\
+  match get_ptr true t (m_mem s) 0 (m_len s) with
+  | Ok (top, _) =>
+      match set_data true t s top [PF 1] (byte_size X x1) (Ok (encode X x1)) with
+      | Ok (s1, top1, []) =>
+          ztake (m_len s1) (m_mem s1) = encode t (plug t v [SF 1] x1) /\ top1 = lay0 t (plug t v [SF 1] x1) 0 /\
+          match set_data true t s1 top1 [PF 1] (byte_size X x2) (Ok (encode X x2)) with
+          | Ok (s2, top2, []) =>
+              ztake (m_len s2) (m_mem s2) = encode t (plug t v [SF 1] x2) /\ top2 = lay0 t (plug t v [SF 1] x2) 0
+          | _ => False
+          end
+      | _ => False
+      end
+  | _ => False
+  end.
+Proof. vm_compute. repeat split; reflexivity. Qed.
 
 Print Assumptions set_data_general.
 Print Assumptions set_data_general_byte_size.
